@@ -3,7 +3,7 @@
 
 Streams (all one op per case, see harness/log/ser_drv.c for the op lines):
   wf        `rt`: well-formed printf formats from the grammar
-                 literal* ( '%' flags* (width|'*')? ('.' (digits|'*')?)? (l|ll|z|t|j)? conv )*
+                 literal* ( '%' flags* (width|'*')? ('.' (digits|'*')?)? (l|ll|z|t|j)? conv )*   (`l` also on e f g a)
             conv in d i o u x X c s p e E f F g G a A, "%%", flags - + space # 0 (rarely ' and I) in any
             order and number, typed arguments with extreme values; libc reference requested
   steer     the same cases again with maxLen / strLen moved to the observed record / text length -3..+2
@@ -167,10 +167,14 @@ def gen_directive(rng, long_ok=False):
             if v in (LONG_MIN, LONG_MAX, -1):
                 meta["tags"].add("extreme-int")
     elif conv in DBL_CONVS:
-        text += conv
-        expanded += conv
+        # `l` is legal on a floating conversion and has no effect ("%lf"); the scanners still see it
+        mod = rng.choice(["", "", "l"])
+        text += mod + conv
+        expanded += mod + conv
         args.append("d:%016x" % pick_double_bits(rng))
         meta["tags"].add("float")
+        if mod:
+            meta["tags"].add("mod-l-float")
     elif conv == "c":
         text += conv
         expanded += conv
